@@ -223,13 +223,16 @@ Proof.
   intros H1 H2 H3. unfold measure. rewrite H1. apply msum_ext. intros e. unfold mcell. now rewrite H2, H3.
 Qed.
 
-Lemma shrink_obuf s m v : shrink s (set_obuf s (upd (obuf s) m v)).
-Proof. unfold shrink. simpl_st. repeat split; auto. Qed.
+Lemma shrink_obuf s m : shrink s (set_obuf s (upd (obuf s) m None)).
+Proof.
+  unfold shrink. simpl_st. repeat split; auto.
+  intros x. unfold upd. destruct (Nat.eqb x m); auto.
+Qed.
 
 (* ~modeBuffer_t: destroy all slices *)
 Lemma children_spec : forall n f X W D T G s b,
   measure s <= n -> n + 3 <= f -> inv X W D T G s -> alive s b = true -> In b W ->
-  (forall x, In x D -> tagof s x <> TO KMem) ->
+  (forall x, In x D -> ~ In x (G b SMem)) ->
   exists G' s', exec f (TChildren b) s = Some (tt, s') /\ inv X W D T G' s' /\ G' b SMem = [] /\
                 alive s' b = true /\ shrink s s' /\
                 (forall x, alive s x = true -> alive s' x = false -> In x (G b SMem)).
@@ -254,7 +257,7 @@ Proof.
     set (s2 := set_obuf s1 (upd (obuf s1) m None)).
     assert (Hi2 : inv (m :: X) (m :: W) D T G1 s2).
     { apply inv_weaken_W. apply inv_set_obuf; [exact Hi1|now left|]. rewrite S2. exact Htm. }
-    assert (Hmd : ~ In m D) by (intros H; apply (HD m H); exact Htm).
+    assert (Hmd : ~ In m D) by (intros H; apply (HD m H); now left).
     assert (Hms2 : measure s2 = measure s).
     { unfold s2. rewrite <- (measure_same s s1 S1 S3 S4). apply measure_same; reflexivity. }
     destruct (delete_mem_down f (m :: X) (m :: W) D T G1 s2 m) as (s3 & Hex3 & Hi3 & Hd3 & Hsh3 & Hal3).
@@ -281,7 +284,9 @@ Proof.
       assert (Hb3 : alive s3 b = true).
       { rewrite Hal3 by exact Hbm. unfold s2. simpl_st. rewrite S3. exact Hb. }
       destruct (IH (measure s3) ltac:(lia) f X W D T G3 s3 b) as (G' & s' & Hex' & Hi' & Hnil & Hb' & Hsh' & Hk'); try assumption; try lia.
-      { intros x Hx. destruct Hsh03 as (_ & E & _). rewrite E. now apply HD. }
+      { intros x Hx Hx3. apply (HD x Hx). unfold G3 in Hx3. rewrite upd2_other in Hx3 by (right; discriminate).
+        unfold G1 in Hx3. rewrite upd2_same in Hx3.
+        apply ring_remove_In in Hx3; [|apply (hk_nd _ _ (i_heap _ _ _ _ _ _ _ Hi))]. rewrite EG in Hx3. tauto. }
       exists G', s'. split; [exact Hex'|]. split; [exact Hi'|]. split; [exact Hnil|]. split; [exact Hb'|].
       split; [eapply shrink_trans; eassumption|].
       intros x Hx1 Hx2. destruct (alive s3 x) eqn:E3.
